@@ -57,6 +57,14 @@ def expand(rng, m, ops):
         "seqz": lambda: ("sltiu", [ops[0], ops[1], "1"]),
         "snez": lambda: ("sltu", [ops[0], z, ops[1]]),
         "nop": lambda: ("addi", [z, z, "0"]),
+        # CSR pseudo-instructions (RARS operand order for csrw/csrs/csrc: register first)
+        "csrw": lambda: ("csrrw", [z, ops[1], ops[0]]),
+        "csrs": lambda: ("csrrs", [z, ops[1], ops[0]]),
+        "csrc": lambda: ("csrrc", [z, ops[1], ops[0]]),
+        "csrr": lambda: ("csrrs", [ops[0], ops[1], z]),
+        "csrwi": lambda: ("csrrwi", [z, ops[0], ops[1]]),
+        "csrsi": lambda: ("csrrsi", [z, ops[0], ops[1]]),
+        "csrci": lambda: ("csrrci", [z, ops[0], ops[1]]),
     }
     f = table.get(m)
     try:
@@ -249,6 +257,11 @@ def run(ctx):
         progs.append([l for l in gen.random_flow(rng).split("\n") if l.strip()])
     for _ in range(40 * k):
         progs.append([l for l in gen.stack_fuzz(rng).split("\n") if l.strip()])
+    for _ in range(80 * k):          # interrupt handlers installed and CSRs accessed through every CSR (pseudo-)instruction
+        h = [l for l in gen.handler_prog(rng).split("\n") if l.strip()]
+        extra = rng.choice([["csrw t1, uscratch"], ["csrr t2, ustatus", "add a0, a0, t2"], ["csrwi ustatus, 1"], ["csrsi uie, 16"], ["csrci ustatus, 1"],
+                            ["csrs t1, uie"], ["csrc t1, uie"], []])
+        progs.append(h[:2] + extra + h[2:])
     progs = [[l for l in p if not l.strip().startswith((".", "#"))] for p in progs]
     cases = []
     for p in progs:
